@@ -12,6 +12,7 @@ from ..veq import veq
 
 LEVEL = "fault_enumeration"
 FOOT = 64
+SLOT = 16
 RULE = ("messages = {trailing, Pointer-placed, Prefixed-enclosed, nested-after-header, fixed-position footer written first} x digest {Byte/sum8, Int32ub/crc32, Bytes(16)/md5, Bytes(20)/sha1, "
         "Bytes(32)/sha256, Byte[4]/md5 prefix as list} x inner {fixed, length-dependent, terminated, nested, array} x generated values; every message is "
         "built, parsed back, edited and rebuilt from the parsed container (the documented workflow), and re-parsed under EVERY single-bit flip; RawCopy "
@@ -32,6 +33,9 @@ INNERS = {
     "nested": (["Struct", [["h", B], ["body", ["Prefixed", B, ["name", "GreedyBytes"]]], ["t", ["name", "Int16ul"]]]],
                lambda r: {"h": r.randrange(256), "body": bytes(r.randrange(256) for _ in range(r.randrange(0, 5))), "t": r.randrange(65536)}),
     "arr": (["Array", 3, B], lambda r: [r.randrange(256) for _ in range(3)]),
+    "swapped-bytes": (["ByteSwapped", ["Bytes", 4]], lambda r: bytes(r.randrange(256) for _ in range(4))),     # value: bytes as long as the region, other content
+    "xor-fixed": (["FixedSized", 4, ["ProcessXor", 0x5a, ["name", "GreedyBytes"]]], lambda r: bytes(r.randrange(256) for _ in range(4))),
+    "bitsswapped": (["BitsSwapped", ["Bytes", 3]], lambda r: bytes(r.randrange(256) for _ in range(3))),
     "empty-bytes": (["Bytes", 0], lambda r: b""),                       # regions of no bytes at all
     "empty-array": (["Array", 0, B], lambda r: []),
     "varint": (["name", "VarInt"], lambda r: r.choice([0, 1, 127, 128, 300, 2 ** 21, 2 ** 35])),
@@ -40,6 +44,8 @@ INNERS = {
 DIGESTS = {
     "sum8": (B, 1), "crc32": (["name", "Int32ub"], 4), "md5": (["Bytes", 16], 16), "sha1": (["Bytes", 20], 20), "sha256": (["Bytes", 32], 32),
     "md5list": (["Array", 4, B], 4),
+    # digest fields whose stream size is larger than the digest
+    "sha1padded": (["Padded", 24, ["Bytes", 20]], 24), "crc32aligned": (["Aligned", 8, ["name", "Int32ub"]], 8),
 }
 
 
@@ -63,6 +69,9 @@ def message(fmt, inner, digest):
     if fmt == "fixedblock":
         # the whole record (covered region + digest) sits in a fixed-size block that does not start at offset 0
         return ["Struct", [["hdr", ["Bytes", 3]], ["blk", ["FixedSized", 48, ["Struct", [["fields", ["RawCopy", ir]], ["checksum", ck]]]]], ["after", B]]]
+    if fmt == "fixedraw":
+        # the covered region itself is a fixed-size slot (RawCopy directly inside FixedSized, padded with zeros), the digest follows the slot
+        return ["Struct", [["hdr", B], ["fields", ["FixedSized", SLOT, ["RawCopy", ir]]], ["checksum", ck], ["after", B]]]
     if fmt == "focused":
         # the record written with FocusedSeq (the result is the RawCopy container itself)
         return ["Struct", [["hdr", B], ["rec", ["FocusedSeq", "fields", [["fields", ["RawCopy", ir]], ["checksum", ck]]]], ["after", B]]]
@@ -81,12 +90,14 @@ def msg_value(fmt, v):
         return {"hdr": b"HDR", "blk": {"fields": {"value": v}}, "after": 9}
     if fmt == "header":
         return {"fields": {"value": v}, "trail": 3}
+    if fmt == "fixedraw":
+        return {"hdr": 7, "fields": {"value": v}, "after": 9}
     return {"fields": {"value": v}}
 
 
 def region_start(fmt, digest):
     dn = DIGESTS[digest][1]
-    return {"trailing": 0, "pointer": dn, "prefixed": 2, "header": 2, "footer": 0, "offsetted": 2, "focused": 1, "fixedblock": 3}[fmt]
+    return {"trailing": 0, "pointer": dn, "prefixed": 2, "header": 2, "footer": 0, "offsetted": 2, "focused": 1, "fixedblock": 3, "fixedraw": 1}[fmt]
 
 
 def reference_verdict(fmt, inner, digest, msg):
@@ -114,6 +125,10 @@ def reference_verdict(fmt, inner, digest, msg):
         view = msg[:3 + 48]
     start = region_start(fmt, digest)
     inner_view = view
+    if fmt == "fixedraw":
+        if len(view) < start + SLOT:
+            return ("reject",)
+        inner_view = view[:start + SLOT]              # the inner construct is confined to its slot
     if fmt == "offsetted":
         if len(view) - dn < start:
             return ("reject",)
@@ -124,13 +139,13 @@ def reference_verdict(fmt, inner, digest, msg):
     except Exception:
         return ("reject",)
     region = view[start:s.pos]
-    dpos = 0 if fmt == "pointer" else (len(view) - dn if fmt == "offsetted" else s.pos)
+    dpos = 0 if fmt == "pointer" else (len(view) - dn if fmt == "offsetted" else start + SLOT if fmt == "fixedraw" else s.pos)
     ds = TracedStream(view, pos=dpos)
     try:
         dv = mk(dr).parse_stream(ds)
     except Exception:
         return ("reject",)
-    if fmt in ("header", "focused") and len(view) < ds.pos + 1:
+    if fmt in ("header", "focused", "fixedraw") and len(view) < ds.pos + 1:
         return ("reject",)
     h = HASHES[digest](region)
     same = (list(dv) == h) if isinstance(h, list) else (dv == h)
@@ -157,7 +172,7 @@ def run_message(ctx, case):
         return
     h = HASHES[digest](enc)
     hb = mk(DIGESTS[digest][0]).build(h)
-    dpos = 0 if fmt == "pointer" else start + len(enc)
+    dpos = 0 if fmt == "pointer" else start + SLOT if fmt == "fixedraw" else start + len(enc)
     if msg[dpos:dpos + len(hb)] != hb:
         ctx.violation("checksum-build-digest:%s:%s" % (fmt, digest), "stored digest %s is not hash(covered region) %s" % (msg[dpos:dpos + len(hb)].hex(), hb.hex()), case)
         return
@@ -184,7 +199,7 @@ def run_message(ctx, case):
             ctx.violation("checksum-edit-workflow-raises:%s:%s" % (fmt, type(e).__name__), "parse, edit value, delete data, build raised %s: %s" % (type(e).__name__, e), case)
             return
         hb2 = mk(DIGESTS[digest][0]).build(HASHES[digest](enc2))
-        dpos2 = 0 if fmt == "pointer" else start + len(enc2)
+        dpos2 = 0 if fmt == "pointer" else start + SLOT if fmt == "fixedraw" else start + len(enc2)
         if msg2[start:start + len(enc2)] != enc2 or msg2[dpos2:dpos2 + len(hb2)] != hb2:
             ctx.violation("checksum-stale-after-edit:%s:%s" % (fmt, digest), "rebuilt message %s: region/digest are not the new value's encoding %s and its hash %s" % (msg2.hex()[:160], enc2.hex(), hb2.hex()), case)
             return
@@ -217,6 +232,8 @@ def run_message(ctx, case):
             continue            # the unused gap before the footer: sample it
         if fmt == "fixedblock" and where == "framing" and bit // 8 >= dpos + len(hb) and bit % 16:
             continue            # the zero padding of the block: sample it
+        if fmt == "fixedraw" and where == "framing" and start + len(enc) <= bit // 8 < dpos and bit % 8:
+            continue            # the zero padding of the slot: sample it
         ctx.count("flips_in_" + where)
         if want[0] == "accept":
             ctx.count("flips_that_still_verify_per_reference")
@@ -446,7 +463,7 @@ def run_case(ctx, case):
 
 def run(ctx):
     rng = ctx.rng
-    fmts = ["trailing", "pointer", "prefixed", "header", "footer", "offsetted", "focused", "fixedblock"]
+    fmts = ["trailing", "pointer", "prefixed", "header", "footer", "offsetted", "focused", "fixedblock", "fixedraw"]
     combos = [(f, i, g) for f in fmts for i in INNERS for g in DIGESTS]
     per = ctx.pick(1, 12)
     if ctx.index == 0:
